@@ -392,6 +392,21 @@ impl GenKnobs {
         }
     }
 
+    /// The same knobs with every canary replaced by a different one of the same shape: two runs
+    /// that differ only in this must agree on everything that is safe to log.
+    pub fn twinned(&self) -> GenKnobs {
+        let mut k = self.clone();
+        k.alpha = self
+            .alpha
+            .chars()
+            .enumerate()
+            .map(|(i, c)| if i < 2 { c } else { (((c as u8 - b'a' + 7) % 26) + b'a') as char })
+            .collect();
+        k.digits = 100_000_000 + (self.digits - 100_000_000 + 12_345_679) % 99_999_999;
+        k.hex = 0x1000_0000 + (self.hex - 0x1000_0000 + 0x0123_4567) % 0xefff_ffff;
+        k
+    }
+
     pub fn at(&self, kind: Kind, safe: bool) -> GenCx<'_> {
         GenCx {
             k: self,
@@ -435,6 +450,11 @@ impl Gen for String {
                         })
                         .collect()
                 }
+            }
+            Kind::Path | Kind::Query if t.chance(1, 12) => {
+                // values with a meaning of their own in a URI
+                t.pick(&[".", "..", "...", "%2E", "%2e%2E", "%2F", "%", "%25", "%zz", "+", " ", "a+b c", "a/b", "/", "//", "?", "#", "a=b&c=d", "&", "=", ";", "a;b=c", "\\", "%00", "\u{0}"])
+                    .to_string()
             }
             _ => ir::gen_string(t, c.k.wild_strings, c.k.max_str),
         };
